@@ -296,7 +296,8 @@ def check_cfg(F, R, cfg):
                 if ys[0] == "const" and is_minus_one(ys) and ex.is_call(xs, r"field::FieldElement\w+::from_bytes$") and ex.mentions_arg(xs, 1):
                     return True
             return False
-        g = Guard("u != -1", r"FieldElement\w+ as core::cmp::PartialEq>::eq$|impl core::cmp::PartialEq for .*FieldElement\w+>::eq$", want=0, arg_pred=m1_pred)
+        g = Guard("u != -1", r"FieldElement\w+ as core::cmp::PartialEq>::eq$|impl core::cmp::PartialEq for .*FieldElement\w+>::eq$", want=0, arg_pred=m1_pred,
+                  alt=[(r"FieldElement\w+ as core::cmp::PartialEq>::ne$|impl core::cmp::PartialEq for .*FieldElement\w+>::ne$", 1)])
         edges = g.edges(fv)
         sites = [s["bb"] for s in success_sites(fv)]
         good = bool(edges) and bool(sites) and dominated(fv, sites, edges)
